@@ -8,7 +8,8 @@ PAIR = re.compile(r'\(\s*"([^"]+)"\s*,\s*r#"(.*?)"#\s*,?\s*\)', re.S)
 RAW = re.compile(r'r#"(.*?)"#', re.S)
 
 
-def programs(repo="/repo"):
+def programs(repo=None):
+    repo = repo or os.environ.get("REPO_ROOT", "/repo")
     out = []
     for path in sorted(glob.glob(os.path.join(repo, "packages/beff-core/tests/*.rs"))):
         text = open(path).read()
